@@ -60,6 +60,8 @@ def equal(
     x1, x2 = numpoly.align_polynomials(x1, x2)
     if out is None:
         out = numpy.ones(x1.shape, dtype=bool)
+    else:
+        numpy.copyto(out, True, where=numpy.asarray(where))
     if not out.shape:
         return equal(x1.ravel(), x2.ravel(), out=out.ravel()).item()
     for coeff1, coeff2 in zip(x1.coefficients, x2.coefficients):
